@@ -45,6 +45,9 @@ struct Sched {
   long seq = 0;
   // schedule source
   std::vector<Step> script; size_t pos = 0; bool replay = false;
+  bool strict = true;      // replay: the real thread's operation and value must equal the script's (else only the
+                           // thread choice is taken from the script and conformance is judged from the log)
+  bool fellback = false;   // lenient replay: the script became infeasible and scheduling continued randomly
   unsigned long long rng = 88172645463325252ULL;
   long max_steps = 6000;
   FILE* log = stdout;
@@ -92,8 +95,17 @@ inline void pick() {
     G.cur = G.script[G.pos++];
     Thread* c = nullptr;
     for (Thread* t : G.threads) if (t->id == G.cur.t) c = t;
+    bool ok = c && c->st == TS_READY && (!c->pend.enabled || c->pend.enabled());
+    if (!ok && !G.strict) {
+      // lenient: the scripted thread cannot move here; continue with seeded random choices, the log is judged later
+      G.replay = false; G.fellback = true;
+      fprintf(G.log, "{\"note\":\"fallback\",\"seq\":%ld,\"t\":%d}\n", G.seq, G.cur.t);
+      if (en.empty()) die("deadlock", "no enabled thread");
+      G.granted = en[rnd() % en.size()]->id;
+      pthread_cond_broadcast(&G.cv);
+      return;
+    }
     if (!c || c->st != TS_READY) die("diverge", "thread " + std::to_string(G.cur.t) + " is not at a yield point; spec step " + G.cur.op);
-    bool ok = !c->pend.enabled || c->pend.enabled();
     if (!ok) die("diverge", "thread " + std::to_string(G.cur.t) + " op " + c->pend.op + " not enabled; spec step " + G.cur.op);
     G.granted = c->id;
   } else {
@@ -112,7 +124,7 @@ inline void yield_begin(const char* op, const char* obj, long arg, std::function
   if (G.running == 0) pick();
   while (G.granted != self->id) pthread_cond_wait(&G.cv, &G.mu);
   G.granted = -1; self->st = TS_RUNNING; G.running++;
-  if (G.replay) {
+  if (G.replay && G.strict) {
     // the real thread's next operation must be the one the specification takes
     bool kind_ok = G.cur.op == op || (G.cur.op == "sleep" && !strcmp(op, "wait")) || (G.cur.op == "pass" && !strcmp(op, "wait"));
     if (!kind_ok || (G.cur.obj != "*" && G.cur.obj != obj && strcmp(op, "api") != 0))
@@ -124,7 +136,7 @@ inline void yield_end(const char* op, const char* obj, long val) {
   if (!self) return;
   fprintf(G.log, "{\"seq\":%ld,\"t\":%d,\"op\":\"%s\",\"obj\":\"%s\",\"val\":%ld}\n", G.seq, self->id, op, obj, val);
   G.seq++;
-  if (G.replay && G.cur.has_val && strcmp(op, "api") != 0 && G.cur.val != val) {
+  if (G.replay && G.strict && G.cur.has_val && strcmp(op, "api") != 0 && G.cur.val != val) {
     fflush(G.log);
     die("diverge", std::string("value mismatch at ") + op + "/" + obj + ": spec " + std::to_string(G.cur.val) + " impl " + std::to_string(val));
   }
